@@ -35,6 +35,7 @@ THEOREMS = {
         "Dawgs.C05.Facts.unguarded_partial_sites_known",
         "Dawgs.C05.Facts.kind_mapper_locked",
         "Dawgs.C05.Facts.kind_mapper_check_then_act",
+        "Dawgs.C05.Facts.kinds_interned_atomically",
         "Dawgs.C05.Facts.assert_kinds_order",
         "Dawgs.C05.Facts.kind_mapper_single_writer",
     ],
@@ -147,7 +148,8 @@ SPEC = {
             "builders of /repo/query (supported and unsupported shapes) + 32 hand-assembled cypher model values with nil optionals + the "
             "kind-mapper race probe + 24 (200) kind-mapper contract cases (16 goroutines translate the same CREATE naming FRESH kinds against one mapper: outputs byte-equal, "
             "afterwards one id per kind, one kind per id, ids dense; label lists mixing already registered and fresh kinds in every order, first call vs "
-            "sequential repeat vs the 16 concurrent calls; the single-threaded repeated label (n:K:K)) + 10 fixed and 40 (600) generated "
+            "sequential repeat vs the 16 concurrent calls; the single-threaded repeated label (n:K:K); and never-seen kind names whose query text every goroutine PARSES itself behind the barrier, "
+            "so that the first interning of the name is concurrent too; one id per kind NAME, compared by String()) + 10 fixed and 40 (600) generated "
             "multi-path shapes (2-3 path variables, each referenced at least twice through nodes()/relationships()/size() in RETURN or only in the tail WHERE). + 16 totality shapes + 12 fixed and 40 (600) generated property maps whose keys differ only in case (ASCII and Unicode case pairs; node / relationship / "
             "CREATE / SET += positions; values as parameters so that the walk order shows in the parameter numbering) + 16 parameter-shape cases including library values "
             "(*graph.Properties fresh with nil Map, with nil tracking sets, after Set/Delete, nil pointer; graph.Kinds, []graph.ID(nil), *time.Time, empty vs nil slices and maps) "
